@@ -24,6 +24,8 @@ import (
 
 const repoModule = "github.com/criyle/go-sandbox"
 
+type pkgT = packages.Package
+
 // Prog is the loaded program.
 type Prog struct {
 	Dir    string
@@ -127,18 +129,21 @@ func (p *Prog) Func(rel, name string) *ssa.Function {
 		if !ok {
 			return nil
 		}
+		var wrapper *ssa.Function
 		for _, t := range []types.Type{types.NewPointer(named), named} {
 			ms := p.SSA.MethodSets.MethodSet(t)
 			for i := 0; i < ms.Len(); i++ {
 				if ms.At(i).Obj().Name() == mn {
 					if f := p.SSA.MethodValue(ms.At(i)); f != nil {
-						// unwrap promoted-method wrappers is not needed here
-						return f
+						if f.Synthetic == "" {
+							return f
+						}
+						wrapper = f
 					}
 				}
 			}
 		}
-		return nil
+		return wrapper
 	}
 	return sp.Func(name)
 }
